@@ -19,6 +19,7 @@ import (
 	"os/exec"
 	"path/filepath"
 	"sort"
+	"strconv"
 	"strings"
 
 	"verifharness/internal/vh"
@@ -809,6 +810,7 @@ func genC12(outDir string) (err error) {
 		return perr
 	}
 	t := &tr{fset: fset, funcs: map[string]*ast.FuncDecl{}, pkgErrs: map[string]int{}}
+	roundBack := "" // the look-back constant of VersionForRound (decimal integer literal in the source)
 	for _, d := range f.Decls {
 		switch x := d.(type) {
 		case *ast.FuncDecl:
@@ -816,6 +818,18 @@ func genC12(outDir string) (err error) {
 				t.funcs[x.Name.Name] = x
 			}
 		case *ast.GenDecl:
+			if x.Tok == token.CONST {
+				for _, sp := range x.Specs {
+					vs := sp.(*ast.ValueSpec)
+					for i, n := range vs.Names {
+						if n.Name == "protocolRoundBack" && i < len(vs.Values) {
+							if bl, ok := vs.Values[i].(*ast.BasicLit); ok && bl.Kind == token.INT {
+								roundBack = bl.Value
+							}
+						}
+					}
+				}
+			}
 			if x.Tok == token.VAR {
 				for _, sp := range x.Specs {
 					vs := sp.(*ast.ValueSpec)
@@ -886,6 +900,10 @@ func genC12(outDir string) (err error) {
 		return err
 	}
 	sb.WriteString(v)
+	if _, perr := strconv.ParseUint(roundBack, 10, 32); perr != nil {
+		return fmt.Errorf("constant protocolRoundBack is no longer a plain decimal integer literal in %s (found %q)", srcFile, roundBack)
+	}
+	fmt.Fprintf(&sb, "/-- `const protocolRoundBack` of core/protocol_version_processor.go: `VersionForRound(r)` reads the header this many rounds back. -/\ndef protocolRoundBack : Nat := %s\n\n", roundBack)
 	sb.WriteString("/-! Error sites (numbered in order of appearance; messages dropped):\n")
 	for i, s := range t.errSites {
 		fn := "process"
